@@ -1,4 +1,4 @@
-import Knut.Properties.C20Go3
+import Knut.Properties.C20Go3Ex
 import Knut.FactsAgree.TransProcessAllWeights
 /-!
 # C20 on the generated definitions: the weights clauses over the pipeline of `knut portfolio weights` — up to the untranslated query
@@ -139,5 +139,51 @@ example (cur : String → Bool) : ∃ part days ms, setup ({ to := 10, from? := 
     valuedDays ({ to := 10, from? := some 1 } : WFlags).toFlags.cfg ({} : PState).bal days = some ms := by
   obtain ⟨part, days, ms, h1, h2, _⟩ := C20_weights_process_go_partial cur _ rfl _ _ weightAdds_empty
   exact ⟨part, days, ms, h1, h2⟩
+
+/-! ### Non-vacuity on a NON-EMPTY journal: the two days of `Properties/C20Go3Ex.lean` (a deposit, a purchase; no `-v`) with the concrete
+admissible parameters `genPar` — the four translated stages succeed and the two days that reach the query carry the model's values
+(without `-v` every posting value is 0: the maps of values are empty and the model's query adds nothing) -/
+open Knut.C20Go3Ex in
+def exW : WFlags := { exF with }
+
+open Knut.C20Go3Ex in
+theorem ex_weightAdds : ∃ adds, weightAdds exW exDs = .ok (some adds) := by
+  have hpf := Knut.FactsAgree.TransPerformance.perfFrom_perfDaysV exF.cfg exDays ({} : PState) _ ex_valued
+  unfold weightAdds
+  have hs : setup exW.toFlags exDs = .ok (exPart, exDays) := ex_setup
+  rw [hs]
+  simp only
+  have hpf' : perfFrom exW.toFlags.cfg {} exDays = _ := hpf
+  rw [hpf']
+  simp only
+  have hq : (queryFrom exW.mapping exPart.endDates exW.classes
+      (perfDaysV exF.cfg ([], []) (exDays.map (fun d => (d.date, d.transactions))))).isSome = true := by decide +kernel
+  obtain ⟨adds, ha⟩ := Option.isSome_iff_exists.1 hq
+  exact ⟨adds, by rw [ha]⟩
+
+open Knut.C20Go3Ex in
+theorem ex_weights_pipeline (pg : date.Partition) (cf : performance.Calculator.ComputeFlows.State) (pf : performance.Perf.State) :
+    ∃ out, processAllWeights (genPar exF.cfg pg) (weightsInit cur exF.cfg cf pf) exGDays = some out ∧
+      AllRel (DayRelW cur) out (perfDaysV exF.cfg ([], []) (exDays.map (fun d => (d.date, d.transactions)))) ∧ out.length = 2 := by
+  obtain ⟨adds, hadds⟩ := ex_weightAdds
+  obtain ⟨part, days, ms, hs, hms, _, H, _⟩ := C20_weights_process_go_partial cur exW rfl exDs adds hadds
+  have hs' : setup exF exDs = .ok (part, days) := hs
+  rw [ex_setup] at hs'
+  injection hs' with hs'
+  injection hs' with hp hd
+  subst hp hd
+  have hms' : valuedDays exF.cfg ({} : PState).bal exDays = some ms := hms
+  rw [ex_valued] at hms'
+  injection hms' with hms'
+  subst hms'
+  obtain ⟨out, h1, h2⟩ := H (genPar exF.cfg pg) (genPar_ok _ rfl _) cf pf exGDays exDays_rel
+  refine ⟨out, h1, h2, ?_⟩
+  have hl : ∀ {α β : Type} {R : α → β → Prop} {l : List α} {m : List β}, AllRel R l m → l.length = m.length := by
+    intro α β R l m h
+    induction h with
+    | nil => rfl
+    | cons _ _ ih => simp [ih]
+  rw [hl h2]
+  rfl
 
 end Knut.C20Go4
